@@ -77,10 +77,7 @@ impl ControlMessage {
             }
         }
 
-        if avp_and_err.iter().any(|x| {
-            println!("{x:?}");
-            x.is_err()
-        }) {
+        if avp_and_err.iter().any(|x| x.is_err()) {
             return Err(avp_and_err.into_iter().filter_map(|x| x.err()).collect());
         }
 
